@@ -4,7 +4,7 @@ CONSTANTS QCap = 2 MaxPend = 1 MaxOps = 4
           NoInboundFilter = FALSE NoNullCheck = FALSE AnyoneOpens = FALSE
           RepIds = {5, 7}
           TrackHistory = FALSE FlowCache = "none" HostIps = {"x"} HostPorts = {1}
-          StaleVerdict = "none" HopFollowsPeer = TRUE
+          StaleVerdict = "none" HopFollowsPeer = TRUE VerdictMemo = "none"
           FlagChoices = {} SignedSrcs = {"prev", "port", "other"}
           SrcSet = {"prev", "port", "other"} DkSet = {"v4", "null"}
 INVARIANT OpenedOnlyByPrevHop
